@@ -484,3 +484,289 @@ Section Lateral.
     destruct m, has_radius; try discriminate; intros E; inversion E; apply G; reflexivity.
   Qed.
 End Lateral.
+
+(* ------------------------------------------------- 4. the receiver loop -- *)
+Section MaskLemmas.
+  Context {A B : Type}.
+  Lemma count_true_0 fi j : count_true fi = 0%nat -> nth j fi false = false.
+  Proof.
+    revert j. induction fi as [|b t IH]; intros j H; [now destruct j|].
+    unfold count_true in *. cbn [filter] in H. destruct b; [discriminate|].
+    destruct j; [reflexivity|]. now apply IH.
+  Qed.
+  Lemma count_true_all (l : list A) : l <> [] -> count_true (map (fun _ => true) l) <> 0%nat.
+  Proof. destruct l; [congruence|]. intros _. unfold count_true. cbn. discriminate. Qed.
+
+  (* out[i, fi] = f(freqs[fi]) computed pointwise, on a row of NaN *)
+  Lemma scatter_map_select (f : A -> B) : forall fi l j d,
+    List.length fi = List.length l -> (j < List.length l)%nat ->
+    nth j (scatter fi (map f (select fi l))) None =
+    if nth j fi false then Some (f (nth j l d)) else None.
+  Proof.
+    induction fi as [|b t IH]; intros l j d Hl Hj.
+    - destruct l; cbn in *; lia.
+    - destruct l as [|x r]; [cbn in Hl; lia|].
+      cbn [List.length] in *. destruct b; cbn [select map scatter].
+      + destruct j; [reflexivity|]. cbn [nth]. apply IH; lia.
+      + destruct j; [reflexivity|]. cbn [nth]. apply IH; lia.
+  Qed.
+  Lemma nth_map_const (l : list A) (c : B) j : nth j (map (fun _ => c) l) c = c.
+  Proof. revert j. induction l; intros [|j]; cbn; auto. Qed.
+  Lemma nth_error_combine_seq : forall (l : list A) s n x,
+    nth_error l n = Some x -> nth_error (combine l (seq s (List.length l))) n = Some (x, (s + n)%nat).
+  Proof.
+    induction l as [|a t IH]; intros s n x H; [destruct n; discriminate|].
+    destruct n; cbn in *.
+    - inversion H. now rewrite Nat.add_0_r.
+    - rewrite (IH (Datatypes.S s) n x H). f_equal. f_equal. lia.
+  Qed.
+End MaskLemmas.
+
+Section Fwd.
+  Context {F : Type} {O : FOps F}.
+  Variable leb : F -> F -> bool.
+  Variable lg pw : F -> F.
+  Variable D : Type.
+  Variable g : @grid F.
+  Variable lname : bool.
+  Variable backward : F -> F.
+  Variable props : list (Z -> Z -> Z -> F).
+  Variables (vti has_mu has_eps : bool).
+  Variable ellipse : F * F -> F * F -> Z -> Z -> bool.
+  Variable method : string.
+  Variable has_radius merge : bool.
+  Variable srcc : F * F.
+  Variable freqs : list F.
+  Variable bipole : nat -> list F -> list F -> option (list F) ->
+                    option (list F) -> option (list F) -> list F -> list D.
+
+  Notation fwd_row' := (fwd_row leb lg pw D g lname backward props vti has_mu has_eps ellipse
+                                method has_radius merge srcc freqs bipole).
+  Notation fwd_rows' := (fwd_rows leb lg pw D g lname backward props vti has_mu has_eps ellipse
+                                  method has_radius merge srcc freqs bipole).
+  Notation extract_for' := (extract_for leb lg pw g lname props ellipse method has_radius merge srcc).
+
+  Lemma fwd_rows_nth : forall recs i0 rows, fwd_rows' i0 recs = inr rows ->
+    List.length rows = List.length recs /\
+    forall n rc ofin, nth_error recs n = Some (rc, ofin) ->
+                      fwd_row' (i0 + n)%nat rc ofin = inr (nth n rows []).
+  Proof.
+    induction recs as [|[rc0 of0] t IH]; intros i0 rows H.
+    - cbn in H. inversion H. split; auto. intros [|n]; discriminate.
+    - cbn [fwd_rows] in H.
+      destruct (fwd_row' i0 rc0 of0) as [er|row] eqn:E; [discriminate|].
+      destruct (fwd_rows' (Datatypes.S i0) t) as [er|rows'] eqn:E2; [discriminate|].
+      inversion H; subst rows. destruct (IH _ _ E2) as [L N]. split; [cbn; lia|].
+      intros [|n] rc ofin Hn; cbn in Hn.
+      + inversion Hn; subst. now rewrite Nat.add_0_r.
+      + cbn [nth]. rewrite <- (N n rc ofin Hn). f_equal. lia.
+  Qed.
+
+  (* one row: what each frequency slot holds *)
+  Lemma fwd_row_spec i rc ofin row
+        (bipole1 : nat -> list F -> list F -> option (list F) -> option (list F) ->
+                   option (list F) -> F -> D) :
+    (forall i d ch cv ep mp fs, bipole i d ch cv ep mp fs = map (bipole1 i d ch cv ep mp) fs) ->
+    List.length (mask_of freqs ofin) = List.length freqs ->
+    fwd_row' i rc ofin = inr row ->
+    forall j dflt, (j < List.length freqs)%nat ->
+      (nth j (mask_of freqs ofin) false = false -> nth j row None = None) /\
+      (nth j (mask_of freqs ofin) false = true ->
+       exists e, extract_for' rc = inr e /\
+         nth j row None =
+         Some (bipole1 i (depth_of e) (cond_h_of backward e) (cond_v_of backward vti e)
+                       (eperm_of vti has_mu has_eps e) (mperm_of vti has_mu e)
+                       (nth j freqs dflt))).
+  Proof.
+    intros Hpw Hlen H j dflt Hj. unfold fwd_row in H.
+    set (fi := mask_of freqs ofin) in *.
+    destruct (Nat.eqb (count_true fi) 0) eqn:C.
+    - apply Nat.eqb_eq in C. inversion H; subst row. split.
+      + intros _. apply nth_map_const.
+      + intros T. rewrite (count_true_0 fi j C) in T. discriminate.
+    - destruct (extract_for' rc) as [er|e] eqn:E; [discriminate|].
+      inversion H; subst row. rewrite Hpw.
+      rewrite (scatter_map_select _ fi freqs j dflt Hlen Hj). split.
+      + intros ->. reflexivity.
+      + intros ->. exists e. split; reflexivity.
+  Qed.
+
+  Lemma layered_fwd_spec rcs observed rows
+        (bipole1 : nat -> list F -> list F -> option (list F) -> option (list F) ->
+                   option (list F) -> F -> D) :
+    (forall i d ch cv ep mp fs, bipole i d ch cv ep mp fs = map (bipole1 i d ch cv ep mp) fs) ->
+    (forall o i, observed = Some o -> (i < List.length rcs)%nat ->
+                 List.length (nth i o []) = List.length freqs) ->
+    layered_fwd leb lg pw D g lname backward props vti has_mu has_eps ellipse method has_radius
+                merge srcc freqs bipole rcs observed = inr rows ->
+    List.length rows = List.length rcs /\
+    forall i j rc dflt, nth_error rcs i = Some rc -> (j < List.length freqs)%nat ->
+      let fin := match observed with None => true | Some o => nth j (nth i o []) false end in
+      (fin = false -> nth j (nth i rows []) None = None) /\
+      (fin = true ->
+       exists e, extract_for' rc = inr e /\
+         nth j (nth i rows []) None =
+         Some (bipole1 i (depth_of e) (cond_h_of backward e) (cond_v_of backward vti e)
+                       (eperm_of vti has_mu has_eps e) (mperm_of vti has_mu e)
+                       (nth j freqs dflt))).
+  Proof.
+    intros Hpw Hshape H. unfold layered_fwd in H.
+    destruct (fwd_rows_nth _ _ _ H) as [L N]. split.
+    { rewrite L, map_length, combine_length, seq_length. lia. }
+    intros i j rc dflt Hi Hj fin.
+    assert (Hil : (i < List.length rcs)%nat) by (apply nth_error_Some; congruence).
+    pose proof (nth_error_combine_seq rcs 0 i rc Hi) as Hc.
+    set (ofin := match observed with Some o => Some (nth i o []) | None => None end).
+    specialize (N i rc ofin).
+    rewrite (map_nth_error _ _ _ Hc) in N. cbn [fst snd plus] in N.
+    specialize (N eq_refl).
+    assert (Hlen : List.length (mask_of freqs ofin) = List.length freqs).
+    { subst ofin. destruct observed as [o|]; cbn [mask_of].
+      - now apply Hshape.
+      - now rewrite map_length. }
+    assert (Hfin : nth j (mask_of freqs ofin) false = fin).
+    { subst ofin fin. destruct observed as [o|]; cbn [mask_of]; [reflexivity|].
+      rewrite (nth_indep _ false true) by (now rewrite map_length).
+      apply nth_map_const. }
+    destruct (fwd_row_spec i rc ofin (nth i rows []) bipole1 Hpw Hlen N j dflt Hj) as [P Q].
+    rewrite Hfin in P, Q. split; assumption.
+  Qed.
+End Fwd.
+
+(* ------------------------------- 5. finite-difference gradient, per layer -- *)
+Section FdGrad.
+  Context {F : Type} {O : FOps F}.
+  (* grad[iz] is the finite-difference quotient of the misfit for layer iz *)
+  Lemma fd_grad_nth (cond_h : list F) cond_v data weight misfit call vertical iz :
+    (iz < List.length cond_h)%nat ->
+    nth iz (fd_grad cond_h cond_v data weight misfit call vertical) 0%F =
+    (let base := if vertical then match cond_v with Some v => v | None => [] end else cond_h in
+     let delta := nth iz base 0 * rel_diff in
+     let response := if vertical then call cond_h (Some (bump base iz delta))
+                     else call (bump base iz delta) cond_v in
+     (wmisfit weight (csubL response data) - misfit) / delta)%F.
+  Proof.
+    intros H. unfold fd_grad.
+    set (f := fun iz0 : nat => _).
+    rewrite (nth_indep _ 0%F (f 0%nat)) by (now rewrite map_length, seq_length).
+    rewrite map_nth. rewrite seq_nth by assumption. reflexivity.
+  Qed.
+  Lemma fd_grad_length (cond_h : list F) cond_v data weight misfit call vertical :
+    List.length (fd_grad cond_h cond_v data weight misfit call vertical) = List.length cond_h.
+  Proof. unfold fd_grad. now rewrite map_length, seq_length. Qed.
+End FdGrad.
+
+Section Grad.
+  Local Open Scope R_scope.
+  Variable leb : R -> R -> bool.
+  Variable g : @grid R.
+  Hypothesis nx_pos : (1 <= g_nx g)%Z.
+  Hypothesis ny_pos : (1 <= g_ny g)%Z.
+  Hypothesis hx_pos : forall i, (0 <= i < g_nx g)%Z -> 0 < g_hx g i.
+  Hypothesis hy_pos : forall j, (0 <= j < g_ny g)%Z -> 0 < g_hy g j.
+  Variable lname : bool.
+  Variable backward : R -> R.
+  Variable props : list (Z -> Z -> Z -> R).
+  Variables (vti has_mu has_eps : bool).
+  Variable ellipse : R * R -> R * R -> Z -> Z -> bool.
+  Variable method : string.
+  Variable has_radius merge : bool.
+  Variable srcc : R * R.
+  Variable freqs : list R.
+  Variable bipole : nat -> list R -> list R -> option (list R) ->
+                    option (list R) -> option (list R) -> list R -> list (R * R).
+
+  Notation grad_rec' := (grad_rec leb log10R pow10R g lname backward props vti has_mu has_eps
+                                  ellipse method has_radius merge srcc freqs bipole).
+  Notation grad_loop' := (grad_loop leb log10R pow10R g lname backward props vti has_mu has_eps
+                                    ellipse method has_radius merge srcc freqs bipole).
+  Notation S2 := (@zsum2 R LROps (g_nx g) (g_ny g)).
+
+  Definition gterm : Type := option ((Z -> Z -> R) * list R * option (list R)).
+  (* the layer-k finite-difference quotient a receiver contributes *)
+  Definition term_h (k : Z) (t : gterm) : R :=
+    match t with Some (_, gh, _) => nth (Z.to_nat k) gh 0 | None => 0 end.
+  Definition term_v (k : Z) (t : gterm) : R :=
+    match t with Some (_, _, Some gv) => nth (Z.to_nat k) gv 0 | _ => 0 end.
+
+  Lemma grad_rec_imat i rd im gh gv :
+    grad_rec' i rd = inr (Some (im, gh, gv)) -> S2 im = 1.
+  Proof.
+    unfold grad_rec. destruct rd as [[[[rc fi] obsd] wgtd] resd].
+    destruct (Nat.eqb (count_true fi) 0); [discriminate|].
+    destruct (extract_for _ _ _ _ _ _ _ _ _ _ _ rc) as [er|e] eqn:E; [discriminate|].
+    intros H. inversion H; subst im. unfold extract_for in E.
+    destruct (get_points method srcc rc) as [[mth p0] p1].
+    exact (proj1 (proj2 (extract_1d_imat leb g nx_pos ny_pos hx_pos hy_pos _ _ _ _ _ _ _ _ _ E))).
+  Qed.
+
+  Lemma sumL_cons (x : R) l : @sumL R LROps (x :: l) = x + sumL l.
+  Proof. reflexivity. Qed.
+  Lemma spread_sum im gr k : (0 <= k)%Z -> S2 im = 1 ->
+    S2 (fun i j => spread im gr i j k) = nth (Z.to_nat k) gr 0.
+  Proof.
+    intros Hk H1. unfold spread. replace (k <? 0)%Z with false by (symmetry; lia).
+    rsimp. rewrite zsum2_scal, H1. lra.
+  Qed.
+
+  Lemma grad_loop_sum : forall rds i0 out res, grad_loop' i0 rds out = inr res ->
+    exists terms : list gterm,
+      List.length terms = List.length rds /\
+      (forall n rd, nth_error rds n = Some rd -> grad_rec' (i0 + n)%nat rd = inr (nth n terms None)) /\
+      forall k, (0 <= k)%Z ->
+        S2 (fun i j => fst res i j k) = S2 (fun i j => fst out i j k) + sumL (map (term_h k) terms) /\
+        S2 (fun i j => snd res i j k) = S2 (fun i j => snd out i j k) + sumL (map (term_v k) terms).
+  Proof.
+    induction rds as [|rd t IH]; intros i0 out res H.
+    - cbn in H. inversion H; subst res. exists []. repeat split; auto.
+      + intros [|n]; discriminate.
+      + cbn. rsimp. lra.
+      + cbn. rsimp. lra.
+    - cbn [grad_loop] in H. destruct (grad_rec' i0 rd) as [er|[[[im gh] gv]|]] eqn:E; [discriminate| |].
+      + destruct (IH _ _ _ H) as (terms & L & N & Hs).
+        exists (Some (im, gh, gv) :: terms). split; [cbn; lia|]. split.
+        * intros [|n] rd' Hn; cbn in Hn.
+          -- inversion Hn; subst rd'. rewrite Nat.add_0_r. exact E.
+          -- cbn [nth]. rewrite <- (N n rd' Hn). f_equal. lia.
+        * intros k Hk. destruct (Hs k Hk) as [A B]. pose proof (grad_rec_imat _ _ _ _ _ E) as H1.
+          cbn [fst snd] in A, B. split.
+          -- rewrite A. unfold add3. rsimp. rewrite zsum2_add, spread_sum by auto.
+             cbn [map term_h]. rewrite sumL_cons. lra.
+          -- rewrite B. destruct gv as [v|].
+             ++ unfold add3. rsimp. rewrite zsum2_add, spread_sum by auto.
+                cbn [map term_v]. rewrite sumL_cons. lra.
+             ++ cbn [map term_v]. rewrite sumL_cons. lra.
+      + destruct (IH _ _ _ H) as (terms & L & N & Hs).
+        exists (None :: terms). split; [cbn; lia|]. split.
+        * intros [|n] rd' Hn; cbn in Hn.
+          -- inversion Hn; subst rd'. rewrite Nat.add_0_r. exact E.
+          -- cbn [nth]. rewrite <- (N n rd' Hn). f_equal. lia.
+        * intros k Hk. destruct (Hs k Hk) as [A B]. split.
+          -- rewrite A. cbn [map term_h]. rewrite sumL_cons. lra.
+          -- rewrite B. cbn [map term_v]. rewrite sumL_cons. lra.
+  Qed.
+
+  (* fd_gradient_layer_sum *)
+  Lemma layered_grad_sum rds o0 o2 :
+    layered_grad leb log10R pow10R g lname backward props vti has_mu has_eps ellipse method
+                 has_radius merge srcc freqs bipole (Some rds) = inr (o0, o2) ->
+    exists terms : list gterm,
+      List.length terms = List.length rds /\
+      (forall n rd, nth_error rds n = Some rd -> grad_rec' n rd = inr (nth n terms None)) /\
+      forall k, (0 <= k)%Z ->
+        S2 (fun i j => o0 i j k) = sumL (map (term_h k) terms) /\
+        S2 (fun i j => o2 i j k) = sumL (map (term_v k) terms).
+  Proof.
+    unfold layered_grad. intros H.
+    destruct (grad_loop_sum _ _ _ _ H) as (terms & L & N & Hs).
+    exists terms. split; auto. split; [exact N|].
+    intros k Hk. destruct (Hs k Hk) as [A B]. cbn [fst snd] in A, B.
+    unfold zero3 in A, B. rsimp. rewrite zsum2_zero in A, B. split; lra.
+  Qed.
+
+  (* missing weights / residual / observed: zero gradient *)
+  Lemma layered_grad_none :
+    layered_grad leb log10R pow10R g lname backward props vti has_mu has_eps ellipse method
+                 has_radius merge srcc freqs bipole None = inr (zero3, zero3).
+  Proof. reflexivity. Qed.
+End Grad.
